@@ -69,7 +69,15 @@ fn codes_run(log: &mut Log, rng: &mut Rng, alpha: &[u8], q: u32) {
     if bits * q > 30 {
         log.oblige("codes_beyond_2p30");
     }
-    let rt = RankTransform::new(&Alphabet::new(alpha));
+    let mut rt: Option<RankTransform> = None;
+    log.call("rt_new", json!({}), || {
+        rt = Some(RankTransform::new(&Alphabet::new(alpha)));
+        json!({})
+    });
+    let rt = match rt {
+        Some(r) => r,
+        None => return,
+    };
     let q_us = q as usize;
     let mut texts: Vec<Vec<u8>> = vec![vec![]];
     for n in [q_us.saturating_sub(1), q_us, q_us + 1] {
@@ -83,6 +91,13 @@ fn codes_run(log: &mut Log, rng: &mut Rng, alpha: &[u8], q: u32) {
     for _ in 0..3 {
         let n = rng.range(q as i64, q as i64 + 40) as usize;
         texts.push(rng.seq(n, alpha));
+    }
+    log.call("width", json!({}), || json!({"v": rt.get_width()}));
+    if alpha.len() == 256 {
+        log.oblige("alphabet_of_all_256_bytes");
+    }
+    if alpha.len() == 255 {
+        log.oblige("alphabet_of_255_bytes");
     }
     // a copy of the transform made mid-history (clone / serde round trip / clone_from into a used
     // transform of another alphabet) answers the reverse iteration, the original the forward one
@@ -203,12 +218,17 @@ fn index_run(log: &mut Log, tag: &str, c: &IndexCase) {
     if c.text.len() < q {
         log.oblige("text_shorter_than_q");
     }
+    if sigma == 256 {
+        log.oblige("index_over_all_256_bytes");
+    }
     if c.max_count >= 0 && c.max_count <= 2 {
         log.oblige("max_count_small");
     }
     let alphabet = Alphabet::new(&c.alpha);
     let mut index: Option<QGramIndex> = None;
+    let mut rt0: Option<RankTransform> = None;
     log.call("new", json!({}), || {
+        rt0 = Some(RankTransform::new(&alphabet));
         index = Some(if c.max_count < 0 {
             QGramIndex::new(c.q, &c.text, &alphabet)
         } else {
@@ -220,7 +240,10 @@ fn index_run(log: &mut Log, tag: &str, c: &IndexCase) {
         Some(i) => i,
         None => return,
     };
-    let rt = RankTransform::new(&alphabet);
+    let rt = match rt0 {
+        Some(r) => r,
+        None => return,
+    };
     if q == 1 {
         log.oblige("q_equals_1");
     }
@@ -553,6 +576,24 @@ pub fn drive(log: &mut Log) {
                 log.oblige("unary_alphabet_q_above_64");
             }
             log.oblige("unary_alphabet");
+        }
+    }
+
+    // (w) the widest alphabets: 255 symbols and all 256 byte values (ranks fill a u8, 8 bits per rank);
+    //     codes for q = 1..8 (8 * q <= 64), index for q = 1, 2
+    for &sigma in &[255usize, 256] {
+        for q in 1..=8u32 {
+            case += 1;
+            if !log.mine(case) {
+                continue;
+            }
+            let mut rng = Rng::new(seed, 57, case);
+            let alpha = random_alphabet(&mut rng, sigma);
+            codes_run(log, &mut rng, &alpha, q);
+            if q <= 2 {
+                let c = make_case(log, &mut rng, sigma, q, q as u64 + sigma as u64);
+                index_run(log, "wd", &c);
+            }
         }
     }
 
